@@ -26,8 +26,8 @@ REGISTRY = dict(
           "the last step. Bootstrap condition and formula, unscale_action and the DummyVecEnv flag formulas are regenerated from the source. Tie: correspondence on real PPO/A2C runs."),
     note=("Trusted: Coq 8.16.1 kernel (vm_compute, no native_compute), translate/py2coq.py + specs/onpolicy.py, harness/c06.py, Python/numpy/torch/gymnasium. "
           "Modelled, not verified: the policy forward pass (oracle inputs recorded from the run; recomputed with evaluate_actions/predict_values at tolerance 1e-4 by the oracle), float32 rounding "
-          "(rewards and unsquashed actions compared at rel 1e-5), numpy vectorisation over envs (the model is per env column; tied by this correspondence). VecNormalize is not covered by this check "
-          "(normalised observations are not decodable tags). Model/OnPolicyCollect.vstep1 duplicates the auto-reset step of Model/VecEnv.v. All C06 theorems are closed under the global context."),
+          "(rewards and unsquashed actions compared at rel 1e-5), numpy vectorisation over envs (the model is per env column; tied by this correspondence). Under VecNormalize (norm_reward, optionally norm_obs; obs clipping off) normalised observations are mapped back to tags by array identity with what "
+          "the wrapper handed out, and the model is compared on (buffer reward - normalised reward + raw reward). Model/OnPolicyCollect.vstep1 duplicates the auto-reset step of Model/VecEnv.v. All C06 theorems are closed under the global context."),
     technique="machine-checked proof in Coq (induction over the step list) + regenerated-fragment interface lemmas + differential correspondence on real PPO/A2C runs",
 )
 
@@ -45,8 +45,12 @@ def gen_case(rng, i):
 
     n_envs = rng.choice([1, 1, 2, 3])
     calls = [{"total": rng.randint(1, 3 * 6), "reset": rng.random() < 0.5} for _ in range(rng.choice([1, 2, 2]))]
-    return {"id": i, "algo": rng.choice(["PPO", "A2C"]), "n_envs": n_envs, "n_steps": rng.randint(1, 6),
-            "act": ACT_KINDS[i % len(ACT_KINDS)], "obs": rng.choice(OBS_KINDS), "gamma": rng.choice([0.5, 0.9, 0.99]),
+    obs_kind = rng.choice(OBS_KINDS)
+    vecnorm = rng.random() < 0.25
+    if vecnorm:
+        obs_kind = rng.choice(["box1", "box2"])     # VecNormalize needs Box observations
+    return {"id": i, "vecnorm": vecnorm, "vn_obs": rng.random() < 0.6, "algo": rng.choice(["PPO", "A2C"]), "n_envs": n_envs, "n_steps": rng.randint(1, 6),
+            "act": ACT_KINDS[i % len(ACT_KINDS)], "obs": obs_kind, "gamma": rng.choice([0.5, 0.9, 0.99]),
             "calls": calls, "seed": rng.randint(0, 10**6),
             "scripts": [se.gen_script(rng, max_len=5, tag_base=1000 * e, p_both=0.2, p_trunc=0.45) for e in range(n_envs)]}
 
@@ -65,7 +69,7 @@ def run_impl(case):
     import stable_baselines3 as sb3
     from stable_baselines3.common.callbacks import BaseCallback
     from stable_baselines3.common.utils import obs_as_tensor
-    from stable_baselines3.common.vec_env import DummyVecEnv
+    from stable_baselines3.common.vec_env import DummyVecEnv, VecEnvWrapper
 
     from harness import scripted_envs as se
 
@@ -95,8 +99,61 @@ def run_impl(case):
     def mk(e):
         return lambda: LoggedEnv(case["scripts"][e], obs_kind=case["obs"] if obs_space is None else "box1", act_kind=act_kind, obs_space=obs_space, env_id=e)
 
-    venv = DummyVecEnv([mk(e) for e in range(ne)])
-    ospace = venv.observation_space
+    base = DummyVecEnv([mk(e) for e in range(ne)])
+    ospace = base.observation_space
+    vn = bool(case.get("vecnorm"))
+    vn_obs = vn and bool(case.get("vn_obs"))
+
+    class RecWrap(VecEnvWrapper):
+        """outermost wrapper over VecNormalize: remembers exactly what the algorithm was handed (normalised arrays) together with
+        the raw tags, so that normalised observations can be mapped back to tags by array identity"""
+
+        def __init__(self, v):
+            super().__init__(v)
+            self.last_obs, self.last_tags, self.last_term = None, None, {}
+            self.before, self.seen_r, self.term_bad = [], [], []
+
+        def _note(self, obs):
+            self.last_obs = np.array(obs, copy=True)
+            self.last_tags = se.decode_batch(ospace, self.venv.get_original_obs(), ne)
+
+        def reset(self):
+            obs = self.venv.reset()
+            self._note(obs)
+            self.last_term = {}
+            return obs
+
+        def step_wait(self):
+            self.before.append((self.last_obs, self.last_tags))
+            obs, r, d, infos = self.venv.step_wait()
+            self._note(obs)
+            self.seen_r.append([float(x) for x in r])
+            self.last_term = {e: (np.array(infos[e]["terminal_observation"], copy=True), [x for x in base.envs[e].gt if x[0] == "step"][-1][1])
+                              for e in range(ne) if d[e]}
+            for e, (tobs, tag) in self.last_term.items():
+                # the terminal observation must reach the algorithm the way every observation does (normalised with the statistics in force)
+                exp = self.venv.normalize_obs(np.asarray(se.encode(ospace, tag)))
+                if not np.allclose(tobs, exp, rtol=1e-6, atol=1e-6):
+                    self.term_bad.append([len(self.seen_r) - 1, e, float(np.asarray(tobs).reshape(-1)[0]), float(np.asarray(exp).reshape(-1)[0])])
+            return obs, r, d, infos
+
+    if vn:
+        from stable_baselines3.common.vec_env import VecNormalize
+
+        venv = RecWrap(VecNormalize(base, norm_obs=vn_obs, norm_reward=True, clip_obs=1e9, gamma=case["gamma"]))
+    else:
+        venv = base
+
+    def lookup(arr):
+        """normalised batch -> tags, by identity with what the env wrapper handed out"""
+        arr = np.asarray(arr)
+        if venv.last_obs is not None and arr.shape == venv.last_obs.shape and np.array_equal(arr, venv.last_obs):
+            return list(venv.last_tags)
+        if arr.shape[0] == 1:
+            for e, (tobs, tag) in venv.last_term.items():
+                if np.array_equal(arr[0], tobs):
+                    return [tag]
+        return ["unmatched-normalised-observation"] * arr.shape[0]
     pk = dict(net_arch=[8])
     kw = {}
     if act == "box_squash":
@@ -122,6 +179,8 @@ def run_impl(case):
         else:
             arr = obs_t.detach().cpu().numpy()
             n = len(arr)
+        if vn_obs:
+            return lookup(arr)
         try:
             return se.decode_batch(ospace, arr, n)
         except se.MixedObservation as ex:
@@ -159,6 +218,11 @@ def run_impl(case):
                     batch = rb.observations[t]
                     if isinstance(ospace, spaces.Discrete):
                         batch = batch.reshape(ne)
+                if vn_obs:
+                    g = len(snaps) * T + t
+                    ok = g < len(venv.before) and np.array_equal(np.asarray(batch), venv.before[g][0])
+                    obs_tags.append(list(venv.before[g][1]) if ok else ["unmatched-normalised-observation"] * ne)
+                    continue
                 try:
                     obs_tags.append(se.decode_batch(ospace, batch, ne))
                 except se.MixedObservation as ex:
@@ -179,7 +243,7 @@ def run_impl(case):
                 "starts": rb.episode_starts.astype(np.float64).tolist(), "values": rb.values.astype(np.float64).tolist(), "logps": rb.log_probs.astype(np.float64).tolist(),
                 "full": bool(rb.full), "re_values": v2.numpy().astype(np.float64).reshape(T, ne).tolist(), "re_logps": lp2.numpy().astype(np.float64).reshape(T, ne).tolist(),
                 "last_values": self.locals["values"].detach().cpu().numpy().astype(np.float64).reshape(-1).tolist(), "re_last_values": lv2.numpy().astype(np.float64).reshape(-1).tolist(),
-                "dones": [bool(d) for d in self.locals["dones"]], "new_obs_tags": se.decode_batch(ospace, self.locals["new_obs"], ne),
+                "dones": [bool(d) for d in self.locals["dones"]], "new_obs_tags": lookup(self.locals["new_obs"]) if vn_obs else se.decode_batch(ospace, self.locals["new_obs"], ne),
                 "n_events": len(events), "call": len(call_bounds),
             })
 
@@ -188,9 +252,10 @@ def run_impl(case):
         call_bounds.append(len(snaps))
         model.learn(total_timesteps=c["total"], callback=Snap(), reset_num_timesteps=c["reset"])
     # V(terminal obs) recomputed is only valid before train(): recompute from recorded pv calls instead (same params within a rollout)
-    space = venv.action_space
+    space = base.action_space
     sp = {"low": np.asarray(space.low, dtype=np.float64).reshape(-1).tolist(), "high": np.asarray(space.high, dtype=np.float64).reshape(-1).tolist()} if isinstance(space, spaces.Box) else {}
-    return {"events": events, "snaps": snaps, "gt": [venv.envs[e].gt for e in range(ne)], "space": sp, "squash": bool(pol.squash_output)}
+    return {"events": events, "snaps": snaps, "gt": [base.envs[e].gt for e in range(ne)], "space": sp, "squash": bool(pol.squash_output),
+            "seen_r": venv.seen_r if vn else None, "term_bad": venv.term_bad if vn else []}
 
 
 def _worker(case):
@@ -273,6 +338,9 @@ def oracle(case, impl, ros):
     gt = ground_truth(case, impl)
     act = case["act"]
     lo, hi = impl["space"].get("low"), impl["space"].get("high")
+    for g, e, got, exp in impl.get("term_bad", []):
+        probs.append(("oracle-terminal-observation-not-normalised", f"step {g} env {e}: the terminal observation handed over under VecNormalize starts with {got}, "
+                                                                    f"the observations the policy is trained on are normalised ({exp})"))
     for r, (ro, sn) in enumerate(zip(ros, impl["snaps"])):
         if not sn["full"]:
             probs.append(("oracle-buffer-not-full", f"rollout {r}: buffer not full at rollout end"))
@@ -304,12 +372,13 @@ def oracle(case, impl, ros):
                 if not close(sn["values"][t][e], sn["re_values"][t][e], 1e-4, 1e-4) or not close(sn["logps"][t][e], sn["re_logps"][t][e], 1e-4, 1e-4):
                     probs.append(("oracle-value-logprob-recomputed", f"{where}: value {sn['values'][t][e]} / log-prob {sn['logps'][t][e]} but evaluate_actions gives "
                                                                       f"{sn['re_values'][t][e]} / {sn['re_logps'][t][e]}"))
-                want = s["r"]
+                base_r = impl["seen_r"][g][e] if impl.get("seen_r") else s["r"]   # under VecNormalize: the normalised reward it was handed
+                want = base_r
                 if e in boot_envs and len(pvs) == len(boot_envs):
                     pvrec = pvs[boot_envs.index(e)]
                     if pvrec[1] != [s["tag"]]:
                         probs.append(("oracle-bootstrap-observation", f"{where}: bootstrap value taken at {pvrec[1]}, terminal observation is {s['tag']}"))
-                    want = s["r"] + gamma * pvrec[2][0]
+                    want = base_r + gamma * pvrec[2][0]
                 if not close(sn["rewards"][t][e], want):
                     probs.append(("oracle-reward", f"{where}: buffer reward {sn['rewards'][t][e]}, expected {want} (env reward {s['r']}, terminated={s['term']}, truncated={s['trunc']})"))
                 a = np.asarray(f[2][e], dtype=np.float64)
@@ -381,7 +450,10 @@ def model_exprs(case, impl, ros):
                             tv = pvrec[2][0]
                     ps.append(f"mkP {coq_Z(r * ns + t)} {coq_list(f[2][e], fq)} {fq(f[3][e])} {fq(f[4][e])} {fq(tv)}")
                     envact = gt[e][g]["action"] if g < len(gt[e]) else []
-                    im.append(f"({fq(sn['rewards'][t][e])}, {coq_list(envact, fq)})")
+                    rew = Fraction(float(sn["rewards"][t][e]))
+                    if impl.get("seen_r") and g < len(gt[e]):
+                        rew = rew - Fraction(float(impl["seen_r"][g][e])) + Fraction(gt[e][g]["r"])
+                    im.append(f"({coq_Q(rew)}, {coq_list(envact, fq)})")
                 rs.append(coq_list(ps))
                 ims.append(coq_list(im))
             eff_reset = case["calls"][ci]["reset"] or ci == 0
@@ -483,11 +555,13 @@ def main():
         cases.append(gen_case(chk.rng, i))
     impls, results = run_cases(chk, cases)
     distinct = set()
-    hist = {"algo": {}, "act": {}, "obs": {}, "n_envs": {}, "n_steps": {}, "calls": {}, "bootstraps": 0, "both_flags_steps": 0, "rollouts": 0}
+    hist = {"vecnorm": 0, "vecnorm_obs": 0, "algo": {}, "act": {}, "obs": {}, "n_envs": {}, "n_steps": {}, "calls": {}, "bootstraps": 0, "both_flags_steps": 0, "rollouts": 0}
     for c, im, probs in zip(cases, impls, results):
         for k in ("algo", "act", "obs", "n_envs", "n_steps"):
             hist[k][c[k]] = hist[k].get(c[k], 0) + 1
         hist["calls"][len(c["calls"])] = hist["calls"].get(len(c["calls"]), 0) + 1
+        hist["vecnorm"] += int(bool(c.get("vecnorm")))
+        hist["vecnorm_obs"] += int(bool(c.get("vecnorm")) and bool(c.get("vn_obs")))
         if not im.get("error"):
             hist["rollouts"] += len(im["snaps"])
             hist["bootstraps"] += sum(1 for e in im["events"] if e[0] == "pv") - len(im["snaps"])
@@ -512,7 +586,7 @@ def main():
     chk.assumptions += [
         "policy outputs (actions, values, log-probs, V(terminal obs), last values) are oracle inputs of the model, recorded from the run; the oracle recomputes them with evaluate_actions / predict_values on the frozen policy (1e-4)",
         "float32 rounding is not modelled: rewards and unsquashed actions are compared at rel/abs 1e-5",
-        "VecNormalize is not exercised by this check",
+        "VecNormalize runs: the reward/observation the algorithm is handed is taken from a recording wrapper around VecNormalize (its statistics are C15's subject)",
         "a learn() stopped by a callback is not exercised (C13)",
     ]
     return chk.finish()
